@@ -108,6 +108,43 @@ Theorem C13_failed_read_keeps_cache : forall st c dt k d,
 Proof. exact failed_read_keeps_cache. Qed.
 Print Assumptions C13_failed_read_keeps_cache.
 
+(* ---- the documented rules, one by one (doc/source/images_and_memory.rst, get_fdata / uncache docstrings) *)
+(* "in_memory is always True for array images"; for a proxy image it says whether a cache is full *)
+Theorem C13_in_memory_rule :
+  (forall st o, c_dobj st = DArr o -> cstep st InMemory = (st, OBool true)) /\
+  (forall st p, c_dobj st = DProxy p ->
+     cstep st InMemory = (st, OBool (is_some (c_fcache st) || is_some (c_dcache st)))).
+Proof. exact in_memory_rule. Qed.
+Print Assumptions C13_in_memory_rule.
+
+(* caching='unchanged' never touches either cache (full stays full, empty stays empty), also when the read fails *)
+Theorem C13_unchanged_leaves_cache : forall st b dt,
+  c_fcache (fst (fdata_step b st Unchanged dt)) = c_fcache st
+  /\ c_dcache (fst (fdata_step b st Unchanged dt)) = c_dcache st.
+Proof. exact unchanged_leaves_cache. Qed.
+Print Assumptions C13_unchanged_leaves_cache.
+
+(* uncache() empties both caches; a proxy image is then not in memory; no effect when they were empty *)
+Theorem C13_uncache_rule : forall st,
+  c_fcache (fst (cstep st Uncache)) = None /\ c_dcache (fst (cstep st Uncache)) = None
+  /\ (forall p, c_dobj st = DProxy p -> snd (cstep (fst (cstep st Uncache)) InMemory) = OBool false)
+  /\ (c_fcache st = None -> c_dcache st = None -> fst (cstep st Uncache) = st).
+Proof. exact uncache_rule. Qed.
+Print Assumptions C13_uncache_rule.
+
+(* an array image whose own array already has the requested float dtype: in every history, with either caching
+   mode (and whatever was cached, uncached, edited or sliced in between), get_fdata of that dtype returns the
+   image's OWN array - so edits of the result are edits of the image *)
+Theorem C13_array_fdata_is_own : forall o dt, is_float dt = true -> forall ops st, own_inv o dt st ->
+  forall i c, (nth_error ops i = Some (GetFdata c dt) \/ nth_error ops i = Some (FdataBroken c dt)) ->
+  nth_error (snd (crun st ops)) i = Some (OArr o).
+Proof. exact array_fdata_is_own. Qed.
+Print Assumptions C13_array_fdata_is_own.
+
+Theorem C13_array_image_own_inv : forall vals sh dt h0 ex, own_inv 0%nat dt (init_array vals sh dt h0 ex).
+Proof. exact own_inv_init. Qed.
+Print Assumptions C13_array_image_own_inv.
+
 (* non-vacuity: a scaled int16 proxy image; fill, edit, unchanged read (cached: edit visible),
    header edits, uncache, read again (file values back), slice, legacy cache *)
 Example C13_nonvacuous :
